@@ -23,7 +23,7 @@ PROPS = {
              "unterminated ${ and %get(, trailing backslash), %dirscan over a simulated directory whose listing is modelled exactly (one run in ten makes the listing 20474..20486 or 41000 bytes long with 100..255-character names), "
              "plus values padded to 20300..20470 characters so replacements reach the 20 kB limit; HOME set/unset/empty, 7..12 built-ins; "
              "the argument is an exact CONFIG_BUFF-byte simulated block; oracle = reference expander written from the stated rules (value checked unless a don't-care construct occurs), NUL-termination and length, "
-             "and a second execution of the whole plan under different heap and stack garbage that must give byte-identical results; distinct = distinct trace hash; non-trivial = >= 3 ops",
+             "and a second execution of the whole plan under different heap and stack garbage that must give byte-identical results; Since rounds 10-12: the %name ) spelling and variable-deleting spellings (value don't-care), fdopen()/fchmod() refusals, built-ins registered between expansions. distinct = distinct trace hash; non-trivial = >= 3 ops",
              probes=["fdopen_failed", "fchmod_failed", "value_checked", "value_dont_care", "dollar_mid_line", "backslash_at_end", "unterminated_brace", "nested_call_depth3", "result_hits_limit", "tilde_inside_quotes", "big_directory", "dirscan_listing_modelled", "dirscan_listing_over_limit", "cut_result_is_a_prefix",
                      "random_picked_another_word", "dirscan_no_directory"]),
     "C11": P(["asan", "asanz"], 30, 900,
@@ -31,7 +31,7 @@ PROPS = {
              "300 unmatched begin lines, empty file, bad magic, %include/%put/%get/%random/%dirscan (one run in ten over a directory whose listing is 20474..20486 or 41000 bytes long)/$VAR/~ and, in a quarter of the runs, %exec/backquote/%preproc), 0..200 contexts, 7..13 built-ins, "
              "spifconf_find_file with file/dir/pathlist strings up to 40000 bytes, spiftool_temp_file under a libc that creates with 0600 or 0666&~umask, direct expansions up to the 20 kB limit; "
              "oracle = ASan/allocator verdict, step and CPU budgets, spawn census, temp-file mode/uniqueness census, allocator ledger at spifconf_free_subsystem, equal handler traces for repeated cycles; "
-             "distinct = distinct trace hash; non-trivial = >= 3 ops",
+             "Since rounds 10-12: wrong-arity built-ins, the %name ) spelling, directives without argument, variables deleted from the middle of the list, fdopen()/fchmod() refusals per cycle, registrations between parses, more than 255 built-ins/contexts (must be refused). distinct = distinct trace hash; non-trivial = >= 3 ops",
              probes=["fdopen_failed", "fchmod_failed", "lifecycle_cycle_completed", "repeated_cycle_compared", "builtin_table_grew", "empty_file", "nul_in_file", "line_over_limit", "line_near_limit", "contexts_crossed_160",
                      "spawn_by_directive", "vars_defined", "second_cycle_uses_vars", "find_file_found", "path_component_over_limits", "temp_file_created", "big_directory"]),
     "C09": P(["plain", "plainz"], 30, 900,
@@ -39,7 +39,7 @@ PROPS = {
              "comment | blank | begin NAME | end [junk] | %include F | text, nesting depth biased to 9..11, 19..21, 39..41, 79..81, 159..161, 200, 255, 0..200 registered contexts bound to 8 recording handlers, "
              "optional override of the null context, fopen failures and seeded read chunking from the parse op's fault script, parse with and without a search path; "
              "oracle = reference dispatcher producing the exact handler-call trace incl. state tokens, stack balance and index<capacity through read-only accessors; "
-             "distinct = distinct trace hash; non-trivial = >= 3 ops",
+             "Since rounds 10-12: the program may rename itself (libast_set_program_name) and the environment may change between two parses; up to 255 registered contexts with a preference for the last one in begin lines. distinct = distinct trace hash; non-trivial = >= 3 ops",
              probes=["environment_changed_between_parses", "program_renamed", "line_delivered_with_open_expansion", "depth_crossed_20", "depth_crossed_40", "depth_crossed_80", "depth_crossed_160", "include_depth_crossed_10", "include_depth_crossed_20", "include_depth_crossed_40",
                      "include_depth_crossed_80", "include_depth_crossed_160", "unknown_context", "surplus_end", "eof_without_newline", "include_open_failed", "contexts_crossed_20",
                      "contexts_crossed_160", "unbalanced_input", "file_opened_but_unreadable", "empty_file",
@@ -48,7 +48,7 @@ PROPS = {
              "plans = 1..20 URLs per run (4/5 from component tuples over small alphabets with each optional part present/absent -- three quarters of those as text, one quarter assembled through the setters, unparsed and parsed again; 1/5 arbitrary byte strings), "
              "one simulated name-service table per run (7 bits: tcp/udp/ip protocols, http/ftp/dns services, a service whose protocol is missing), two stack paints per URL; "
              "oracle = reference splitter + port rule + canonical unparse + parse(unparse) round trip + identical components under both paints + allocator ledger; "
-             "distinct = distinct trace hash; non-trivial = >= 3 URLs",
+             "Since rounds 11-12: the name-service table may change between two parses of a run; a service listed under two protocols with different ports (udp first, tcp second). distinct = distinct trace hash; non-trivial = >= 3 URLs",
              probes=["name_service_changed", "wellformed_url", "proto_is_protocol_name", "service_found_tcp", "service_found_udp_only", "service_proto_missing", "colon_in_password", "query_without_path", "assembled_url_roundtrip", "constructed_from_str_object", "service_with_five_digit_port"]),
     "C15": P(["plain5", "plain"], 30, 900,
              "plans = (a) 3..80 tracked malloc/calloc/realloc/strdup/free calls over 12 pointer slots (through spifmem_* and through the MALLOC/REALLOC/FREE macros as library code sees them), "
@@ -60,19 +60,19 @@ PROPS = {
     "C17": P(["asan", "asanz"], 30, 900,
              "plans = 1..20 comparisons per run: pairs of generated well-formed versions (N(.N)*[word[N]], words incl. snap/pre/alpha/beta/rc), near-identical pairs, and wild strings of "
              "letter/digit/punctuation runs with lengths biased to 1, 126..129, 200, 1000; arguments are exact-size simulated blocks; each comparison runs under two stack paints, after "
-             "another call, in both argument orders and against itself; reference comparator on well-formed pairs where the statement defines the order; distinct = distinct trace hash; non-trivial = >= 3 comparisons",
+             "another call, in both argument orders and against itself; reference comparator on well-formed pairs where the statement defines the order; Since round 11: every comparison of a run is asked again at the end of the run in reverse order (same answer required), and one pair in four is derived from the previous call's strings (word cut, grown, or replaced by two different pre-release words). distinct = distinct trace hash; non-trivial = >= 3 comparisons",
              probes=["wellformed_pair", "prerelease_word_pair", "suffix_vs_bare", "run_longer_than_127", "zero_padded_component", "exhaustive_short_pair"]),
     "C05": P(["asan", "asanz"], 30, 900,
              "plans = seeded programs (4..30 ops) over a pool of 6 objects drawn from 16 kinds (str, ustr, mbuff, objpair, tok, url, regexp, list/vector/map x array/linked_list/dlinked_list; "
              "vobj or str elements) with make/mutate/query/dup/done+re-init/del; allocator policies incl. garbage fill, immediate address reuse and far-apart placement; "
              "after dup: distinct object, same class, type() equal, observer equal; after every op: no other object's observation changed (independence), and "
-             "reflexive/antisymmetric/transitive/NULL-first comparison over all same-kind pairs of the pool; distinct = distinct trace hash; non-trivial = >= 3 ops",
+             "reflexive/antisymmetric/transitive/NULL-first comparison over all same-kind pairs of the pool; Since rounds 10-12: a second generation of mutators and queries (positions from the end, negative counts, the middle of lists, rarer regexp flags, a name service that knows the URL words), a list and its fresh copy read by position (the copy must hand out its own elements), and for array lists and vectors comp EQUAL exactly when the element sequences are the same. distinct = distinct trace hash; non-trivial = >= 3 ops",
              probes=["extended_mutator_2", "dup", "class_checked", "comp_pair", "comp_null_first", "comp_of_equal_values", "extended_mutator", "tok_quote_characters_changed", "stream_constructor_ok",
                      "empty_container", "list_with_holes", "pair_without_value", "tok_evaluated", "regexp_compiled", "done", "del"]),
     "C06": P(["asan", "asanz"], 30, 900,
              "plans = seeded programs (4..60 ops) over the whole object API (16 kinds as in C05): create, fill, query (everything handed out is deleted by the caller), "
              "copy, done + re-init, property setters, re-evaluation, early deletion; the simulated allocator is the ledger: live set after deleting every object == live set before, "
-             "no double free / foreign free / use after free (ASan + allocator), element objects deleted exactly once; distinct = distinct trace hash; non-trivial = >= 3 ops",
+             "no double free / foreign free / use after free (ASan + allocator), element objects deleted exactly once; Since rounds 10-12: a second generation of mutators and queries (positions from the end, negative counts, the middle of lists, rarer regexp flags, a name service that knows the URL words), a list and its fresh copy read by position, and libc calls that allocate for the caller (getline, strndup, asprintf ...) inside the ledger. distinct = distinct trace hash; non-trivial = >= 3 ops",
              probes=["extended_mutator_2", "set_with_own_value", "set_with_own_key", "extended_mutator", "map_list_into_given", "stream_constructor_gave_up", "property_set_to_null", "tok_tokens_handed_in",
                      "dup", "done", "del", "map_value_overwritten", "list_with_holes", "tok_reevaluated", "property_setter", "removed_element_deleted_by_caller",
                      "key_value_pair_list_deleted", "empty_container", "regexp_recompiled"]),
@@ -100,21 +100,21 @@ PROPS = {
              "plans = seeded histories (4..40 ops, pool of 4 mbuff objects, direct functions or class-table macros) from a random constructor "
              "(empty, ptr, buff, FILE* seekable/streaming at zero/non-zero position with seeded chunking, descriptor regular-file/streaming with short reads, EINTR, EIO), "
              "all 256 byte values incl. NUL, sizes 0..13000 around the 4096-byte chunk; every object compared with an ideal byte sequence after every step; "
-             "distinct = distinct trace hash; non-trivial = >= 3 ops",
+             "Since rounds 10-12: FILE* sources may be stdio streams over a simulated descriptor (pipe or regular file) of which 0..4097 bytes have already been read; positions and counts reach INT_MAX, 2^32, LONG_MAX and LONG_MAX-len and their negatives. distinct = distinct trace hash; non-trivial = >= 3 ops",
              probes=["fp_over_descriptor", "fp_over_descriptor_partly_read", "self_as_argument", "argument_related_to_object", "null_pointer_with_a_length", "source_read_error",
                      "append_on_empty", "fp_seekable", "fp_streaming", "fp_seekable_nonzero_pos", "fd_regular_file", "fd_streaming", "fd_multi_chunk",
                      "stream_exactly_4096", "refused_op", "absent_byte_search", "cmp_different_lengths", "trim_all_whitespace", "done"]),
     "C01": P(["asan", "asanz"], 30, 900,
              "plans = seeded histories (4..40 ops, pool of 4 objects, str or ustr, direct functions or class-table macros) starting from a random constructor "
              "(empty, ptr, buff, num, FILE* with seeded chunking, descriptor with short reads/EINTR/EAGAIN/EIO), texts from empty to 16 KB around the 4096-byte chunk; "
-             "every object is compared with an ideal character sequence after every step; distinct = distinct trace hash (includes allocator digest); non-trivial = >= 3 ops",
+             "every object is compared with an ideal character sequence after every step; Since rounds 10-12: FILE* sources may be stdio streams over a simulated descriptor (fileno works, stdio reads ahead); positions and counts reach INT_MAX, 2^32, LONG_MAX and LONG_MAX-len and their negatives. distinct = distinct trace hash (includes allocator digest); non-trivial = >= 3 ops",
              probes=["fp_over_descriptor", "self_as_argument", "argument_related_to_object", "counted_buffer_without_terminator", "fp_read_error",
                      "append_on_empty", "fp_line_crosses_4096", "fd_multi_chunk", "refused_op", "done", "query_not_found", "trim_all_whitespace",
                      "mutator_on_empty_state", "dup_of_empty_str"]),
     "C19": P(["plain", "plainz"], 30, 900,
              "plans = fault-script sweep (all scripts over {FULL,SHORT,EINTR}^<=3 on the first reads and {FULL,SHORT,EINTR,EAGAIN}^<=3 on the first writes x 8 payload sizes from 5 to 20000 bytes incl. exact multiples of the 4096-byte chunk) "
              "followed by seeded lifecycles of 1 server + 1..3 client tasks with per-call fault scripts (socket/bind/listen/connect/accept/read/write/close outcomes), listeners on taken addresses, open retries and seeded schedules; "
-             "distinct = distinct trace hash (every simulated call outcome and scheduling decision is hashed); non-trivial = plan has >= 3 operations",
+             "Since rounds 10-11: the sweep has three passes (A: scripts of length <= 3 with a receive queue that holds everything; B: the same with a 1 kB queue; C: all scripts of length 4), EINTR/EAGAIN faults may be bursts of 2..130 identical answers. distinct = distinct trace hash (every simulated call outcome and scheduling decision is hashed); non-trivial = plan has >= 3 operations",
              probes=["fault_burst", "sweep_plan", "accept_ok", "send_true", "recv_over_4096", "dup_ok", "open_failed", "accept_failed", "run_ended_blocked", "run_completed",
                      "recv_ended_at_eof", "recv_ended_on_error", "send_partially_delivered", "natural_eagain_on_write", "dup_without_descriptor", "sender_nonblocking_through_its_copy"]),
     "T00": P(["asan"], 3, 10, "selftest: random allocator traffic; distinct = distinct trace hash among runs with >= 3 ops"),
